@@ -27,8 +27,8 @@ CASE_TIMEOUT = 900
 
 QUICK = [('fcc', 1), ('bcc', 1), ('sc', 1), ('hcp', 1), ('square', 1), ('honey', 1), ('omega', 1), ('diamond', 1),
          ('tria', 1), ('b2', 1), ('lieb', 1), ('dtria', 1), ('rumpled', 1), ('fcc', 2), ('square', 2), ('honey', 2),
-         ('tric', 1), ('mono', 1), ('p4m', 1), ('p2', 1), ('mono2', 1)]
-THOROUGH = QUICK + [('kagome', 1), ('l12', 1), ('tet', 1), ('rect', 1), ('bcc', 2), ('sc', 2), ('hcp', 2), ('tria', 2),
+         ('tric', 1), ('mono', 1), ('p4m', 1), ('p2', 1), ('mono2', 1), ('sc', 2), ('bcc', 2), ('dhcp', 1), ('omega_perm', 1)]
+THOROUGH = QUICK + [('kagome', 1), ('l12', 1), ('tet', 1), ('rect', 1), ('hcp', 2), ('tria', 2),
                     ('dtria', 2), ('diamond', 2), ('rect', 2), ('lieb', 2), ('p2', 2), ('mono', 2)]
 E2E = {('fcc', 1), ('bcc', 1), ('sc', 1), ('square', 1), ('tria', 1), ('honey', 1), ('dtria', 1), ('p2', 1)}
 E2E_THOROUGH = E2E | {('hcp', 1), ('square', 2), ('lieb', 1), ('rect', 1), ('tet', 1)}
